@@ -41,9 +41,17 @@ def run_rng(prop: str, seed_: int, run: int, salt: str = "") -> random.Random:
     return random.Random(f"{prop}:{seed_}:{run}:{salt}")
 
 
-def h7_value(seed_: int) -> int:
-    """The 'other' PYTHONHASHSEED of this invocation (never 0)."""
-    return 1 + random.Random(f"h7:{seed_}").randrange(1, 4000)
+LANES = 16
+
+
+def hash_configs(seed_: int, run: int) -> tuple[str, str, str]:
+    """Hash-seed configurations available to run ``run``: PYTHONHASHSEED=0, another fixed
+    value, and "unset" (emulated under a fixed real seed).  The non-zero values depend on
+    (VERIF_SEED, run mod 16) only, so one invocation covers 16 pairs of them whatever the
+    worker count, and a run's configurations do not depend on which worker executes it."""
+    lane = run % LANES
+    rng = random.Random(f"hashseed:{seed_}:{lane}")
+    return ("H0", f"H{rng.randrange(1, 2**31)}", f"HU{rng.randrange(1, 2**31)}")
 
 
 def sha(obj) -> str:
